@@ -7,6 +7,7 @@ mod geom;
 mod p_dim;
 mod p_geo;
 mod p_nn;
+mod p_par;
 mod p_poly;
 mod p_pred;
 mod p_exact;
@@ -62,7 +63,8 @@ fn main() {
         std::process::exit(2);
     }
     common::install_panic_hook();
-    let known = KnownFindings::load(&a.verif_dir.join("known_findings.json"));
+    // Miri legs never match known findings: skip the (slow under the interpreter) JSON load
+    let known = if a.leg.as_deref().map_or(false, |l| l.starts_with("miri")) { KnownFindings::default() } else { KnownFindings::load(&a.verif_dir.join("known_findings.json")) };
     let mut report = Report::new(&a.id, &a.tier, a.seed);
     let out = a.out_dir.clone().unwrap_or_else(|| a.verif_dir.clone());
     if let Some(path) = a.replay.clone() {
